@@ -246,6 +246,38 @@ class Gen:
             inp += " V(1, " + bad_call + ")"
         return {"macros": ms, "input": inp}
 
+    def funlike_flat(self):
+        """the fragment of C03_funlike_partial: object-like + fixed-arity function-like macros without # / ##,
+        no function-like name in replacement lists; invocations with flat arguments free of macro names"""
+        r = self.r
+        objs = r.sample(["A", "B", "C", "N"], r.randint(0, 3))
+        funs = r.sample(["F", "G", "H"], r.randint(1, 2))
+        ms = []
+
+        def body(params):
+            k = r.choice([1, 2, 3, 4, 5])
+            pool = list(params) * 2 + objs + ["1", "2", "p", "+", "*", "==", "(", ")"] + funs[:0]
+            return " ".join(r.choice(pool) for _ in range(k))
+        for o in objs:
+            ms.append({"name": o, "params": None, "body": body([]), "via": r.choice(["define", "D"])})
+        arity = {}
+        for f in funs:
+            n = r.choice([1, 1, 2, 2, 3])
+            arity[f] = n
+            ms.append({"name": f, "params": ["x", "y", "z"][:n], "body": body(["x", "y", "z"][:n]), "via": r.choice(["define", "define", "D"])})
+        r.shuffle(ms)
+        parts = []
+        for _ in range(r.choice([1, 2, 3])):
+            c = r.random()
+            if c < 0.7:
+                f = r.choice(funs)
+                args = [" ".join(r.choice(["1", "7", "p", "q", "+", "-"]) for _ in range(r.choice([0, 1, 1, 2])))
+                        for _ in range(arity[f])]
+                parts.append(f + r.choice(["", " "]) + "(" + r.choice([",", ", ", " , "]).join(args) + ")")
+            else:
+                parts.append(r.choice(objs + ["1", "p", "+", "=="]))
+        return {"macros": ms, "input": " ".join(parts)}
+
     def malformed(self):
         r = self.r
         c = self.case()
@@ -338,6 +370,10 @@ class C03(Check):
             out.append({"macros": ms, "input": g.invocation(ms)})
         for _ in range(n_mal):
             out.append(g.malformed())
+        n_ff = 250 if quick else 5000
+        for _ in range(n_ff):   # the fragment of C03_funlike_partial
+            out.append(g.funlike_flat())
+        self.hist["funlike_flat_block"] = n_ff
         n_op = 200 if quick else 4000
         for _ in range(n_op):
             out.append(g.operand_only())
